@@ -211,6 +211,12 @@ def execute(cfg, script, expect, changed_pos, T, reward_fn, oracles, learner_cla
         except Exception as e:  # noqa
             ctx.src_points = src.points
             raise AlgoCrash("pull", e, traceback.format_exc())
+        if x is None and not any(getattr(o, "wants_none", False) for o in oracles):
+            # the algorithm has nothing left to propose (e.g. StoSOO with a saturated depth cap): the run ends
+            # here for every check except C01, which judges the None itself
+            ctx.t = t - 1
+            ctx.extra["stats"].bump("runs_ended_by_none")
+            break
         ctx.x = x
         ctx.points.append(x)
         ctx.attach_all()
